@@ -181,6 +181,10 @@ def gen_case(rng, nf):
                 nxt = gen_step(rng, cur, style)
                 ops.append(["pct", fn, th, percpu, rng.choice([0.1, 0.5, 1, 2.5]), nxt])
                 cur = nxt
+            elif rng.random() < 0.12:
+                # the read of /proc/stat fails for once (EMFILE / ENOMEM ...): the call may raise, the thread's previous
+                # sample must survive
+                ops.append(["pct_fail", fn, th, percpu, rng.choice([None, 0])])
             else:
                 ops.append(["pct", fn, th, percpu, rng.choice([None, None, 0, 0.0]), None])
     return dict(nf=nf, ops=ops)
@@ -198,6 +202,7 @@ def gen_proc_case(rng):
         # time the process did NOT use itself: CPU of children it reaped, time spent waiting for block I/O
         other = [rng.choice([0, 0, rng.randrange(1, 5000)]) for _ in range(3)]
         ops.append(dict(utime=u, stime=s, dt=dt, other=other,
+                        wall_step=rng.choice([0, 0, 0, -3600, 120, -0.3, 86400 * 365]),
                         interval=(dt if blocking and dt > 0 else rng.choice([None, 0, 0.0]))))
     return dict(proc=True, ops=ops)
 
@@ -307,6 +312,30 @@ def run_case(case, acc):
                         if tuple(row._fields) != tuple(names) or tuple(row) != tuple(float(x) / CLK for x in c):
                             viols.append(("cpu_times_wrong", ctx + f" got {tuple(row)} ticks={c}"))
                             break
+                elif op[0] == "pct_fail":
+                    _, fn, th, percpu, interval = op
+                    armed = [True]
+
+                    def once(kind, path, armed=armed):
+                        if armed[0] and kind == "open" and path == "/proc/stat":
+                            armed[0] = False
+                            return OSError(24, "Too many open files", path)
+                        return None
+                    vk.rules.append(once)
+                    r = call_in(th, lambda: getattr(ps, fn)(interval=interval, percpu=percpu))
+                    armed[0] = False
+                    vk.rules.remove(once)
+                    acc.count("percent_calls_with_failing_read")
+                    if r[0] == "ok":
+                        # it did not need the file?  then it is an ordinary call: judged like one
+                        after = [list(c) for c in st.snap]
+                        before = last.get((th, fn, percpu)) or after
+                        if len(before) == len(after):
+                            check_rows(fn, percpu, before, after, r[1])
+                        last[(th, fn, percpu)] = after
+                    elif not isinstance(r[1], OSError):
+                        viols.append((f"{fn}_exception:{type(r[1]).__name__}:failing_read", ctx + f" {r[1]!r}"))
+                    # an OSError leaves the model's previous sample of this thread untouched
                 elif op[0] == "pct":
                     _, fn, th, percpu, interval, nxt = op
                     threads_used.add(th)
@@ -383,11 +412,16 @@ def run_proc_case(case, acc):
                     def bump(op=op):
                         p.utime, p.stime = op["utime"], op["stime"]
                         grow_other(op)
+                        clock.wall_offset = getattr(clock, "wall_offset", 0.0) + op.get("wall_step", 0)
                     clock.at(clock.t + interval / 2, bump)
                     got = pr.cpu_percent(interval=interval)
                     ref = before
                 else:
                     clock.advance(op["dt"])
+                    # the calendar clock is stepped between the samples: elapsed time is what the monotonic clock says
+                    clock.wall_offset = getattr(clock, "wall_offset", 0.0) + op.get("wall_step", 0)
+                    if op.get("wall_step"):
+                        acc.count("process_percent_across_calendar_clock_step")
                     p.utime, p.stime = op["utime"], op["stime"]
                     grow_other(op)
                     got = pr.cpu_percent(interval=interval)
